@@ -823,9 +823,24 @@ func (t *Term) ref() string {
 	case OConst:
 		return t.constString()
 	case OVar:
-		return smtName(t.Name)
+		return t.varName()
 	}
 	return "t" + strconv.Itoa(t.ID)
+}
+
+// varName: the SMT name of an input variable; the sort is part of it because the same harness input
+// name may be requested with different types on different paths (declarations are global).
+func (t *Term) varName() string {
+	suffix := "!b"
+	switch t.Sort.K {
+	case SBV:
+		suffix = "!" + strconv.Itoa(t.Sort.W)
+	case SF64:
+		suffix = "!f"
+	case SF32:
+		suffix = "!g"
+	}
+	return smtName(t.Name + suffix)
 }
 
 func fpSortArgs(s Sort) string {
